@@ -11,6 +11,7 @@ one step takes at most 560 T-states, far less than a frame (69888/70908 T).
 import ZxVerif.Lemmas.Z80Graded
 import ZxVerif.Props.C04Sys
 import ZxVerif.Props.C05Sys
+import ZxVerif.Lemmas.Driving
 namespace ZxVerif.DrivingSys
 open ZxVerif.Z80 ZxVerif.Machine ZxVerif.Spectrum ZxVerif.C05
 open ZxVerif.C04Sys (Good)
@@ -139,5 +140,94 @@ theorem frame_arith {L pf fc pf' fc' : Nat} (hL : 69888 ≤ L) (hfc : fc < L) (h
   rcases (by omega : d = 0 ∨ d = 1) with rfl | rfl
   · left; omega
   · right; omega
+
+/-! ### `run_max_measures` relative to an invariant
+
+`Lemmas/Driving.lean` asks `crossed ≤ 1` of *every* state; a concrete machine has it only in its
+regular states (a controller whose in-frame offset is far beyond the frame length would pass several
+frame ends in one step). Same proof, carrying the invariant along the trajectory. -/
+
+open ZxVerif.Driving ZxVerif.Driving.Spec in
+theorem run_max_measures_inv {M : Type} (mc : Machine M) (c : Call M) (hmode : c.mode = .max)
+    (Inv : M → Prop) (hstep : ∀ m, Inv m → Inv (mc.step m)) (h1 : ∀ m, Inv m → mc.crossed m ≤ 1) :
+    ∀ (fuel : Nat) (m : M) (sw : List Nat) (steps ms : Nat), Inv m →
+      ∃ j, (Driving.run mc c fuel m 0 sw steps ms).steps = steps + j
+        ∧ ((Driving.run mc c fuel m 0 sw steps ms).reason = .timeout →
+            (Driving.run mc c fuel m 0 sw steps ms).measures = ms + crossedSum mc j m + 1)
+        ∧ ((Driving.run mc c fuel m 0 sw steps ms).reason = .breakpoint →
+            (Driving.run mc c fuel m 0 sw steps ms).measures + (Driving.run mc c fuel m 0 sw steps ms).passed
+              = ms + crossedSum mc j m + 1) := by
+  intro fuel
+  induction fuel with
+  | zero =>
+    intro m sw steps ms _
+    exact ⟨0, by simp [Driving.run], by simp [Driving.run], by simp [Driving.run]⟩
+  | succ fuel ih =>
+    intro m sw steps ms hi
+    have hc := h1 m hi
+    have hi' := hstep m hi
+    rw [Driving.run]
+    simp only [hmode, Nat.zero_add]
+    by_cases he : mc.err m = true
+    · simp only [he, ↓reduceIte]
+      exact ⟨1, rfl, by simp, by simp⟩
+    · simp only [he, Bool.false_eq_true, ↓reduceIte]
+      by_cases hb : c.bp steps (mc.step m) = true
+      · simp only [hb, ↓reduceIte]
+        exact ⟨1, rfl, by simp, by intro _; simp [crossedSum]; omega⟩
+      · simp only [hb, Bool.false_eq_true, ↓reduceIte]
+        by_cases hp : mc.crossed m ≠ 0
+        · simp only [hp, ne_eq, not_false_eq_true, ↓reduceIte]
+          by_cases hl : c.limit < (measure sw).1
+          · simp only [hl, ↓reduceIte]
+            exact ⟨1, rfl, by intro _; simp [crossedSum]; omega, by simp⟩
+          · simp only [hl, ↓reduceIte]
+            obtain ⟨j, e1, e2, e3⟩ := ih (mc.step m) (measure sw).2 (steps + 1) (ms + 1) hi'
+            refine ⟨j + 1, by omega, ?_, ?_⟩
+            · intro h; rw [e2 h, crossedSum]; omega
+            · intro h; rw [e3 h, crossedSum]; omega
+        · have hz : mc.crossed m = 0 := by omega
+          simp only [hz, ne_eq, not_true_eq_false, ↓reduceIte]
+          obtain ⟨j, e1, e2, e3⟩ := ih (mc.step m) sw (steps + 1) ms hi'
+          refine ⟨j + 1, by omega, ?_, ?_⟩
+          · intro h; rw [e2 h, crossedSum]; omega
+          · intro h; rw [e3 h, crossedSum]; omega
+
+/-- On a `Timed` machine the state at frame boundary `K` exists: stepping until `K` frame boundaries
+have passed takes at most `K·L` steps. -/
+theorem runToFrame_total {M : Type} (mc : Driving.Machine M) (L : Nat) (clock : M → Nat) (Inv : M → Prop)
+    (ht : Driving.Timed mc L clock Inv) :
+    ∀ (fuel K : Nat) (m : M), Inv m → K * L ≤ fuel + clock m →
+      ∃ m', Driving.Spec.runToFrame mc fuel K m = some m' := by
+  intro fuel
+  induction fuel with
+  | zero =>
+    intro K m hi hf
+    cases K with
+    | zero => exact ⟨m, rfl⟩
+    | succ K =>
+      exfalso
+      have hb := ht.bound m hi
+      have : 1 * L ≤ (K + 1) * L := Nat.mul_le_mul_right L (by omega)
+      omega
+  | succ fuel ih =>
+    intro K m hi hf
+    cases K with
+    | zero => exact ⟨m, rfl⟩
+    | succ K =>
+      rw [Driving.Spec.runToFrame]
+      have ha := ht.advance m hi
+      have hc := ht.crossed_le m hi
+      rw [Nat.add_mul, Nat.one_mul] at hf
+      rcases (by omega : mc.crossed m = 0 ∨ mc.crossed m = 1) with h0 | h1
+      · rw [h0] at ha ⊢
+        simp only [Nat.mul_zero, Nat.add_zero, Nat.sub_zero] at ha ⊢
+        apply ih _ _ (ht.inv_step m hi)
+        rw [Nat.add_mul, Nat.one_mul]
+        omega
+      · rw [h1] at ha ⊢
+        simp only [Nat.mul_one, Nat.add_sub_cancel] at ha ⊢
+        apply ih _ _ (ht.inv_step m hi)
+        omega
 
 end ZxVerif.DrivingSys
